@@ -14,6 +14,17 @@ Fixpoint hx (s : string) : list N :=
   | _ => []
   end.
 
+(* zeroHashes[0..64] under SHA-256, computed once (fastssz computes the same table in init()) *)
+Definition sha_zero_table : list chunk :=
+  Eval vm_compute in
+    (fix go (n : nat) (z : chunk) : list chunk :=
+       match n with O => [] | S n' => z :: go n' (sha_pair z z) end) 65 zero_chunk.
+
+Definition sha_zero (d : nat) : chunk := nth d sha_zero_table zero_chunk.
+
+Example sha_zero_is_zero_hash : forallb (fun d => bytes_eqb (sha_zero d) (zero_hash sha_pair d)) (seq 0 20) = true.
+Proof. vm_compute. reflexivity. Qed.
+
 Definition opt_eqb (a b : option (list N)) : bool :=
   match a, b with
   | Some x, Some y => bytes_eqb x y
@@ -24,7 +35,7 @@ Definition opt_eqb (a b : option (list N)) : bool :=
 (* ids of the cases whose Coq-evaluated root differs from the expected one *)
 Definition tv_mismatches (cases : list (nat * hprog * value * option (list N))) : list nat :=
   flat_map (fun c => match c with (id, p, e, want) =>
-                       if opt_eqb (root sha_pair p e) want then [] else [id] end) cases.
+                       if opt_eqb (root sha_pair sha_zero p e) want then [] else [id] end) cases.
 
 Example hx_test : hx "00ff1a" = [0; 255; 26]%N.
 Proof. reflexivity. Qed.
